@@ -79,6 +79,13 @@ fn find_in_items(items: &[Item], self_ty: Option<&str>, name: &str, modpath: &[&
                     }
                 }
             }
+            // `outer_fn::nested_fn`: fn items declared inside the body of a free fn
+            if let Item::Fn(f) = it {
+                if f.sig.ident == first {
+                    let nested: Vec<Item> = f.block.stmts.iter().filter_map(|s| if let Stmt::Item(i) = s { Some(i.clone()) } else { None }).collect();
+                    if let Some(r) = find_in_items(&nested, self_ty, name, rest) { return Some(r); }
+                }
+            }
         }
         return None;
     }
